@@ -453,7 +453,7 @@ func (db *MultiBucketBackend) PutObject(
 ) (result gofakes3.PutObjectResult, err error) {
 
 	if !validObjectName(objectName) {
-		return result, errInvalidObjectName
+		return result, errInvalidObjectName()
 	}
 
 	// The body is read (and its length and digest verified by the reader
